@@ -1,7 +1,48 @@
-/- line-protocol handler for model "h2" (stub until its model is built) -/
+import LtVerif.Model.H2Flow
 namespace Driver
+open LtVerif
+
+/-- run write passes until nothing more is sent (server quiescence) -/
+def fcQuiesce : Nat → FcConn → FcConn × List FcOut
+  | 0, c => (c, [])
+  | fuel + 1, c =>
+    let (c', o) := writePass c 262144
+    if o.isEmpty then (c', []) else
+      let (c'', o') := fcQuiesce fuel c'
+      (c'', o ++ o')
+
+def fcOutStr : FcOut → String
+  | .data sid n => s!"D{sid}:{n}"
+  | .rst sid code => s!"R{sid}:{code}"
+  | .goaway code => s!"G{code}"
+
+def fcSummary (c : FcConn) : String :=
+  let ss := c.streams.map fun s =>
+    s!"{s.id}:sent={s.sent},pend={s.pending},swin={s.swin},credit={s.credit}"
+  s!"conn:sent={c.sent},swin={c.swin},credit={c.credit},goaway={c.goaway.getD 0}|" ++ String.intercalate ";" ss
+
+/-- events: o<id>,<body>,<inc01> | s<v> | w<sid>,<inc> | q  (q = run write passes to quiescence)
+    output after every q: per-stream totals -/
+def fcEvents : List String → FcConn → List String → List String
+  | [], _, acc => acc.reverse
+  | t :: rest, c, acc =>
+    let args := (t.drop 1).toString.splitOn ","
+    let nat (i : Nat) : Nat := ((args.getD i "0").toNat?).getD 0
+    match t.toList.head? with
+    | some 'o' => fcEvents rest (fcStep c (.openStream (nat 0) (nat 1) (nat 2 == 1))).1 acc
+    | some 's' =>
+      let (c', o) := fcStep c (.settingsInitialWindow (nat 0))
+      fcEvents rest c' (if o.isEmpty then acc else (String.intercalate " " (o.map fcOutStr)) :: acc)
+    | some 'w' =>
+      let (c', o) := fcStep c (.windowUpdate (nat 0) (nat 1))
+      fcEvents rest c' (if o.isEmpty then acc else (String.intercalate " " (o.map fcOutStr)) :: acc)
+    | some 'q' =>
+      let (c', _) := fcQuiesce 10000 c
+      fcEvents rest c' (fcSummary c' :: acc)
+    | _ => fcEvents rest c ("bad-ev" :: acc)
 
 def h2Line : List String → String
+  | "fc" :: evs => String.intercalate " / " (fcEvents evs FcConn.init [])
   | _ => "bad-op"
 
 end Driver
